@@ -236,6 +236,12 @@ def compare_vf(obs, ref, rnd, mp, n_points=6, vectorized=False, mech=None, pertu
             zi = [i for i in range(n) if rnd.random() < 0.5] or [rnd.randrange(n)]
             y[zi] = 0.0
             mech['zero_state_probe_points'] = mech.get('zero_state_probe_points', 0) + 1
+        elif pt == n_points - 2 and n_points >= 4:
+            # special value: some state variables tiny but NOT zero (sign / abs / comparisons near zero must not treat them as 0)
+            zi = [i for i in range(n) if rnd.random() < 0.5] or [rnd.randrange(n)]
+            for i in zi:
+                y[i] = rnd.choice([1.0, -1.0]) * 10.0 ** (-rnd.choice([9, 12, 17, 30, 120]))
+            mech['tiny_state_probe_points'] = mech.get('tiny_state_probe_points', 0) + 1
         if obs.get('f32'):
             y = np.asarray(y, dtype=np.float32).astype(float)
         ydict = {k: float(y[i]) for k, i in pos.items()}
